@@ -52,7 +52,13 @@ var packages = []struct {
 
 func TestMain(m *testing.M) {
 	code := m.Run()
-	if f := flag.Lookup("test.run"); code == 0 && (f == nil || f.Value.String() == "") {
+	filtered := false
+	for _, name := range []string{"test.run", "test.skip"} {
+		if f := flag.Lookup(name); f != nil && f.Value.String() != "" {
+			filtered = true
+		}
+	}
+	if code == 0 && !filtered {
 		var missing []string
 		for _, pkg := range packages {
 			for _, q := range pkg.queries() {
@@ -628,8 +634,6 @@ func TestKeyperOutgoingMessages(t *testing.T) {
 		ok(t, err)
 		eq(t, "serial id", id, int32(i+1))
 	}
-	_, err = q.ScheduleSerializedShutterMessage(ctx, keyperdb.ScheduleSerializedShutterMessageParams{Description: "x", Msg: nil})
-	wantCode(t, err, CodeNotNullViolation)
 
 	next, err := q.GetNextShutterMessage(ctx)
 	ok(t, err)
@@ -647,6 +651,10 @@ func TestKeyperOutgoingMessages(t *testing.T) {
 	ok(t, err)
 	eq(t, "id after deletes", id, int32(5))
 	eq(t, "sequence", state(srv).TendermintOutgoingMessagesIDSeq, int32(5))
+	// msg is NOT NULL. (PostgreSQL would burn an id for the failed INSERT; here the sequence is transactional.)
+	_, err = q.ScheduleSerializedShutterMessage(ctx, keyperdb.ScheduleSerializedShutterMessageParams{Description: "x", Msg: nil})
+	wantCode(t, err, CodeNotNullViolation)
+	eq(t, "table size", len(state(srv).TendermintOutgoingMessages), 1)
 }
 
 func insertEons(t *testing.T, q *keyperdb.Queries) {
